@@ -242,6 +242,6 @@ func init() {
 		}
 		u.cross([]bool{true, false})
 		rc.cov("predicate_checks_judged_against_the_rules", len(u.Cases))
-		rc.execFamily(u, "C11", "C01")
+		rc.execFamily(u, "C11", "C01", "C06") // C06: Match and Query tell the same story about a predicate (also under WithSilent)
 	}
 }
